@@ -97,10 +97,17 @@ impl Executors {
                     }
                     for job in rx {
                         let toks: Vec<&str> = job.toks.iter().map(String::as_str).collect();
+                        let t0 = util::now_ns();
                         let res = interp.exec(&toks, job.reply.is_none());
+                        let t1 = util::now_ns();
                         match job.reply {
                             Some(r) => {
                                 let _ = r.send(res);
+                            }
+                            // asynchronous operations carry their call/return times (ns since process
+                            // start) when FJV_TIMING is set: `<lineno> <result> @<call>-<return>`
+                            None if util::timing_enabled() => {
+                                emit(job.lineno, &format!("{res} @{t0}-{t1}"));
                             }
                             None => emit(job.lineno, &res),
                         }
